@@ -76,4 +76,5 @@ func main() {
 		fmt.Println("GetCanonicalTransaction(tx of block 5) = nil")
 	}
 	fmt.Println("EXPECTED by the property: the number->hash index ends at the head (no entry above CurrentHeader).")
+	variant2()
 }
